@@ -51,8 +51,10 @@ type bkmEngine struct{}
 
 func init() { engines["bkm"] = bkmEngine{} }
 
-var bkmNames = []string{"", "work", "@work", "Work", "privat", "@ünï", "my project", "@a b", "q\"uote", "it's", "@default", "default", "z", "@Z", "読む", "x-1_y", "🚀", "@𝓌ork", "a@b", "me@", "@x@y", "2fa"}
-var bkmFiles = []string{"w.klg", "x.klg", "🙂 dir/e.klg", "sub dir/w.klg", "other/x.klg", "sub dir/ü file.klg", "q'uo\"te.klg", "bad.klg", "new1.klg", "new 2.klg", "nodir/n.klg", "empty.klg"}
+var bkmNames = []string{"", "work", "@work", "Work", "privat", "@ünï", "my project", "@a b", "q\"uote", "it's", "@default", "default", "z", "@Z", "読む", "x-1_y", "🚀", "@𝓌ork", "a@b", "me@", "@x@y", "2fa",
+	// texts that look like escapes of the storage format: they must come back exactly as typed
+	"n\\u0026x", "@lt\\u003c", "back\\slash", "amp&<>", "nl\\n", "pct%20"}
+var bkmFiles = []string{"w.klg", "x.klg", "🙂 dir/e.klg", "sub dir/w.klg", "other/x.klg", "sub dir/ü file.klg", "q'uo\"te.klg", "bad.klg", "new1.klg", "new 2.klg", "nodir/n.klg", "empty.klg", "esc\\u0026.klg"}
 
 func normName(typed string) string {
 	n := strings.TrimPrefix(typed, "@")
@@ -67,7 +69,7 @@ func (bkmEngine) generate(property string, seed int64, index int, tier string) *
 	today := time.Date(2024, 5, 17, 10, 0, 0, 0, time.UTC)
 	bc := &BkmCase{Files: map[string]string{}, NoCfgDir: r.Chance(1, 3), BaseUnix: today.Unix()}
 	bc.CfgVia = r.Pick([]string{"", "", "", "xdg", "home"})
-	for _, f := range []string{"w.klg", "x.klg", "🙂 dir/e.klg", "sub dir/w.klg", "other/x.klg", "sub dir/ü file.klg", "q'uo\"te.klg"} {
+	for _, f := range []string{"w.klg", "x.klg", "🙂 dir/e.klg", "sub dir/w.klg", "other/x.klg", "sub dir/ü file.klg", "q'uo\"te.klg", "esc\\u0026.klg"} {
 		d := genDoc(r, docOpts{today: today, maxRecords: 2})
 		bc.Files[f] = d.render()
 	}
